@@ -262,6 +262,26 @@ Fixpoint cat_loop (N : nat) (out : list A) (bs : list (list A)) : option (list A
   end.
 End Fill.
 
+(* ---- AugmentedFlowProposal._marginalise_augment: per-point reduction over n_marg augment draws ------------------------
+   x = np.repeat(x, n_marg, axis=0)          every point n_marg times, consecutively
+   terms = log_prob(x, fresh augment draws) - log N(draws)            one term per repeated row
+   out = -log(n_marg) + logsumexp(terms.reshape(-1, n_marg), axis=1)  one value per consecutive block of n_marg terms *)
+Section Marg.
+Context {A B : Type}.
+Fixpoint blocks_fuel (fuel n : nat) (l : list A) : list (list A) :=
+  match fuel with
+  | O => []
+  | S f => match l with [] => [] | _ => firstn n l :: blocks_fuel f n (skipn n l) end
+  end.
+Definition blocks (n : nat) (l : list A) : list (list A) := blocks_fuel (length l) n l.     (* reshape(-1, n): its rows *)
+(* g x = the n_marg terms of point x (one per augment draw), in draw order; reduce = logsumexp - log n_marg (oracle) *)
+Definition marginalise (reduce : list A -> B) (n : nat) (terms : list A) : list B := map reduce (blocks n terms).
+(* refuted variant: reshape(n, -1) reduced along axis 0 groups the terms j, j + m, j + 2m, ... (m = number of points) *)
+Definition strided (d : A) (n : nat) (l : list A) : list (list A) :=
+  let m := Nat.div (length l) n in
+  map (fun j => map (fun r => nth (j + r * m) l d) (seq 0 n)) (seq 0 m).
+End Marg.
+
 Definition prior_finite (c : cand) : bool := is_fin (lp c).
 (* np.isfinite(log_prior(p)) / np.isfinite(points["logP"]) *)
 Definition new_points (N : nat) (bs : list (list cand)) := fill_loop prior_finite N [] bs.
